@@ -77,7 +77,7 @@ fn host_path(root: &Path, p: &[u8]) -> PathBuf {
 
 static JAIL_SEQ: std::sync::atomic::AtomicU64 = std::sync::atomic::AtomicU64::new(0);
 
-fn make_jail(ents: &[(Vec<u8>, JEnt)]) -> std::io::Result<PathBuf> {
+fn make_jail(ents: &[(Vec<u8>, JEnt)], owner: u32) -> std::io::Result<PathBuf> {
     let n = JAIL_SEQ.fetch_add(1, std::sync::atomic::Ordering::Relaxed);
     let root = PathBuf::from(format!("/tmp/rpmverif-c12-jail-{}-{}", std::process::id(), n));
     let _ = std::fs::remove_dir_all(&root);
@@ -96,6 +96,13 @@ fn make_jail(ents: &[(Vec<u8>, JEnt)]) -> std::io::Result<PathBuf> {
         match e {
             JEnt::Dir(m) | JEnt::File(m, _) => std::fs::set_permissions(&hp, std::fs::Permissions::from_mode(*m))?,
             _ => {}
+        }
+    }
+    if owner != 0 {
+        // an unprivileged extraction: the whole jail belongs to that user (lchown: links themselves, never their targets)
+        for (p, _) in ents {
+            let hp = CString::new(host_path(&root, p).as_os_str().as_bytes()).unwrap();
+            unsafe { libc::lchown(hp.as_ptr(), owner, owner); }
         }
     }
     Ok(root)
@@ -174,7 +181,7 @@ fn tree_listing(after: &Snap, dest: &[u8]) -> String {
 }
 
 /// run `pkg.extract(dest)` chrooted into `root` in a forked child; returns ok / err / panic / crash
-fn extract_in_jail(pkg: &rpm::Package, root: &Path, dest: &[u8], via: &str) -> &'static str {
+fn extract_in_jail(pkg: &rpm::Package, root: &Path, dest: &[u8], via: &str, umask: u32, uid: u32) -> &'static str {
     let croot = CString::new(root.as_os_str().as_bytes()).unwrap();
     let cslash = CString::new("/").unwrap();
     let cnull = CString::new("/dev/null").unwrap();
@@ -207,9 +214,10 @@ fn extract_in_jail(pkg: &rpm::Package, root: &Path, dest: &[u8], via: &str) -> &
                 libc::dup2(dn, 1);
                 libc::dup2(dn, 2);
             }
-            libc::umask(0o022);
+            libc::umask(umask as libc::mode_t);
             let mut code: u8 = b'x';
-            if libc::chroot(croot.as_ptr()) == 0 && libc::chdir(cslash.as_ptr()) == 0 {
+            if libc::chroot(croot.as_ptr()) == 0 && libc::chdir(cslash.as_ptr()) == 0
+                && (uid == 0 || (libc::setgroups(0, std::ptr::null()) == 0 && libc::setgid(uid) == 0 && libc::setuid(uid) == 0)) {
                 let r = std::panic::catch_unwind(std::panic::AssertUnwindSafe(|| pkg.extract(&dest_path)));
                 code = match r {
                     Ok(Ok(())) => b'o',
@@ -240,12 +248,12 @@ fn extract_in_jail(pkg: &rpm::Package, root: &Path, dest: &[u8], via: &str) -> &
     }
 }
 
-fn observe(pkg_bytes: &[u8], dest: &[u8], jail: &[(Vec<u8>, JEnt)], via: &str) -> String {
+fn observe(pkg_bytes: &[u8], dest: &[u8], jail: &[(Vec<u8>, JEnt)], via: &str, umask: u32, uid: u32) -> String {
     let pkg = match rpm::Package::parse(&mut &pkg_bytes[..]) {
         Ok(p) => p,
         Err(_) => return "parse-err".into(),
     };
-    observe_pkg(&pkg, dest, jail, via)
+    observe_pkg(&pkg, dest, jail, via, umask, uid)
 }
 
 /// `<comp>;<hex dest>:<octal mode>:<hex content|->:<hex link|->;…`
@@ -300,19 +308,19 @@ fn observe_mem(spec: &str, pkg_bytes: &[u8], dest: &[u8], jail: &[(Vec<u8>, JEnt
     if pkg.write(&mut w).is_err() || w != pkg_bytes {
         return "mem-bytes-differ".into();
     }
-    observe_pkg(&pkg, dest, jail, via)
+    observe_pkg(&pkg, dest, jail, via, 0o022, 0)
 }
 
-fn observe_pkg(pkg: &rpm::Package, dest: &[u8], jail: &[(Vec<u8>, JEnt)], via: &str) -> String {
+fn observe_pkg(pkg: &rpm::Package, dest: &[u8], jail: &[(Vec<u8>, JEnt)], via: &str, umask: u32, uid: u32) -> String {
     if !dest.starts_with(b"/") {
         return "bad-request".into();
     }
-    let root = match make_jail(jail) {
+    let root = match make_jail(jail, uid) {
         Ok(r) => r,
         Err(_) => return "jail-err".into(),
     };
     let before = snapshot(&root);
-    let out = extract_in_jail(pkg, &root, dest, via);
+    let out = extract_in_jail(pkg, &root, dest, via, umask, uid);
     let after = snapshot(&root);
     // restore permissions so that removal cannot fail, then remove the jail
     for (p, e) in &after {
@@ -327,21 +335,31 @@ fn observe_pkg(pkg: &rpm::Package, dest: &[u8], jail: &[(Vec<u8>, JEnt)], via: &
 pub fn eval(op: &str, a: &[&str]) -> Option<String> {
     match op {
         "extract" => {
-            if a.len() != 4 && a.len() != 5 {
+            if a.len() < 4 {
                 return Some("bad-request".into());
             }
-            let via = match a.get(4) {
-                None => "abs",
-                Some(v) => match v.strip_prefix("via=") {
-                    Some(x) if ["abs", "rel", "dotdot", "link"].contains(&x) => x,
-                    _ => return Some("bad-request".into()),
-                },
-            };
+            // options after the four positional arguments, in any order: how the caller spells the destination (`via=`),
+            // the process' umask (octal, default 022) and user (default 0 = root; otherwise the jail is chown'ed to that user
+            // and the child drops to it after `chroot`)
+            let (mut via, mut umask, mut uid) = ("abs", 0o022u32, 0u32);
+            for o in &a[4..] {
+                if let Some(x) = o.strip_prefix("via=") {
+                    match ["abs", "rel", "dotdot", "link"].iter().find(|v| **v == x) { Some(v) => via = v, None => return Some("bad-request".into()) }
+                } else if let Some(x) = o.strip_prefix("umask=") {
+                    match u32::from_str_radix(x, 8) { Ok(m) if m <= 0o777 => umask = m, _ => return Some("bad-request".into()) }
+                } else if let Some(x) = o.strip_prefix("uid=") {
+                    match x.parse() { Ok(u) => uid = u, Err(_) => return Some("bad-request".into()) }
+                } else if *o == "feat=nobz" {
+                    // for the driver: this binary links rpm-rs without bzip2 support
+                } else {
+                    return Some("bad-request".into());
+                }
+            }
             let jail = match parse_jail(a[3]) {
                 Some(j) => j,
                 None => return Some("bad-request".into()),
             };
-            Some(observe(&arg_bytes(a[0]), &unhx(a[2]), &jail, via))
+            Some(observe(&arg_bytes(a[0]), &unhx(a[2]), &jail, via, umask, uid))
         }
         "extractmem12" => {
             if a.len() != 5 && a.len() != 6 {
@@ -568,6 +586,10 @@ pub struct HSpec {
     /// stripped entry's data length is taken from it — a lying, huge size over a short archive must end in an error
     /// (seed C12-9: the content buffer pre-allocated with the header's size panics with "capacity overflow")
     pub long_sizes: Option<Vec<u64>>,
+    /// compress the (possibly cut) archive with this codec (crates called directly) and drop `z_cut` bytes from the END of
+    /// the compressed stream: a truncated / damaged compressed payload. The header's compressor name is `compressor`.
+    pub zkind: Option<&'static str>,
+    pub z_cut: usize,
 }
 
 pub fn stripped_entry(idx: u32, data: &[u8]) -> Vec<u8> {
@@ -670,6 +692,11 @@ pub fn hostile_pkg(s: &HSpec) -> Vec<u8> {
     payload.extend(cpio_entry(b"TRAILER!!!", 0, &[]));
     if let Some(k) = s.payload_cut {
         payload.truncate(k.min(payload.len()));
+    }
+    if let Some(kind) = s.zkind {
+        payload = crate::c07::compress07(kind, &payload);
+        let keep = payload.len().saturating_sub(s.z_cut);
+        payload.truncate(keep);
     }
     let lead = gen_lead(&mut Rng::new(1), false);
     assemble(&lead, &GHeader::new(), 0, &h, &payload)
@@ -929,7 +956,34 @@ fn corpus_requests() -> Vec<String> {
         .collect()
 }
 
+/// the harness built against rpm-rs with ITS default features (no bzip2): a package whose header names `bzip2` cannot be
+/// iterated (`decompress_stream`: `UnsupportedCompressorType`), so `extract` creates the directory names and then fails -
+/// whatever the payload holds; gzip as the control
+fn gen_nobz(ctx: &mut Ctx) {
+    let jail = std_jail();
+    let mut base = hs(&["/", "/a/", "/a/b/"], vec![hf(0, "f", REG | 0o644, "", "hello"), hf(1, "g", REG | 0o755, "", "world!!"), hf(2, "h", REG | 0o600, "", "deep")]);
+    for named in [true, false] {
+        base.named = named;
+        let archive = { let pk = hostile_pkg(&base); rpm::Package::parse(&mut &pk[..]).map(|p| p.content).unwrap_or_default() };
+        for kind in ["bzip2", "gzip"] {
+            let mut s = base.clone();
+            s.compressor = Some(b(kind));
+            s.zkind = Some(kind);
+            ctx.req(&format!("{} feat=nobz", request(&hostile_pkg(&s), Some(&archive), "/target", &jail)));
+            if kind == "bzip2" {
+                // the payload is not even bzip2: the answer must not depend on it
+                let mut s2 = base.clone();
+                s2.compressor = Some(b(kind));
+                ctx.req(&format!("{} feat=nobz", request(&hostile_pkg(&s2), Some(&archive), "/target", &jail)));
+            }
+        }
+    }
+}
+
 pub fn gen(ctx: &mut Ctx) {
+    if ctx.variant == "nobz" {
+        return gen_nobz(ctx);
+    }
     let (si, sn) = ctx.shard;
     let jail = std_jail();
     let mut src = SrcDir::new();
@@ -1010,6 +1064,47 @@ pub fn gen(ctx: &mut Ctx) {
                 }
             }
         }
+        // damaged / truncated COMPRESSED payloads (`decompress_stream` is lazy: the entries decoded before the damage are
+        // extracted, then `extract` fails): builder-made packages with the end of the compressed payload cut off, and
+        // hand-assembled ones (named and stripped entries) for every codec
+        if let Some(p) = build_pkg(&mut src, &files, rpm::CompressionType::None) {
+            if let Ok(raw) = rpm::Package::parse(&mut &p[..]) {
+                for (comp, kind) in [(rpm::CompressionType::Gzip, "gzip"), (rpm::CompressionType::Zstd, "zstd"), (rpm::CompressionType::Xz, "xz"), (rpm::CompressionType::Bzip2, "bzip2")] {
+                    let Some(pc) = build_pkg(&mut src, &files, comp) else { continue };
+                    let Ok(pz) = rpm::Package::parse(&mut &pc[..]) else { continue };
+                    let zl = pz.content.len();
+                    for cut in [1usize, 8, zl / 8, zl / 2, zl - zl / 8] {
+                        let keep = zl - cut.min(zl);
+                        let Some((dec, _)) = crate::c07::decode_prefix(kind, &pz.content[..keep]) else { continue };
+                        if dec.is_empty() || !raw.content.starts_with(&dec) { continue; }
+                        ctx.req(&request(&pc[..pc.len() - (zl - keep)], Some(&dec), "/target", &jail));
+                    }
+                }
+            }
+        }
+        {
+            let mut base = hs(&["/", "/a/", "/a/b/"], vec![hf(0, "f", REG | 0o644, "", "hello"), hf(1, "g", REG | 0o755, "", "world!!"),
+                hf(2, "big", REG | 0o600, "", &"0123456789abcdef".repeat(400)), hf(1, "l", LNK | 0o777, "g", ""), hf(0, "last", REG | 0o644, "", "the end")]);
+            for named in [true, false] {
+                base.named = named;
+                for kind in ["gzip", "zstd", "xz", "bzip2"] {
+                    let mut full = base.clone();
+                    full.compressor = Some(b(kind));
+                    let archive = { let mut plain = base.clone(); plain.compressor = None; let pk = hostile_pkg(&plain); rpm::Package::parse(&mut &pk[..]).map(|p| p.content).unwrap_or_default() };
+                    full.zkind = Some(kind);
+                    let zl = crate::c07::compress07(kind, &archive).len();
+                    for cut in [0usize, 1, 9, zl / 3, zl / 2, zl - 20] {
+                        let mut s = full.clone();
+                        s.z_cut = cut;
+                        let pk = hostile_pkg(&s);
+                        let Ok(pz) = rpm::Package::parse(&mut &pk[..]) else { continue };
+                        let Some((dec, _)) = crate::c07::decode_prefix(kind, &pz.content) else { continue };
+                        if dec.is_empty() { continue; }
+                        ctx.req(&request(&pk, Some(&dec), "/target", &jail));
+                    }
+                }
+            }
+        }
         // builder-made but hostile: the builder does not refuse these destinations
         for files in [
             vec![lnk("/a/l", "/decoy"), reg("/a/l/file", 0o600, b"through the link")],
@@ -1026,6 +1121,80 @@ pub fn gen(ctx: &mut Ctx) {
             ctx.req(&request(&p, None, "/target", &jail));
             ctx.req(&request_mem(&[], "none", &p, None, "/target", &jail));
         }
+        // NAME_MAX: components of 255 bytes (the longest name a Linux file system takes) and 256 bytes (ENAMETOOLONG), as a
+        // directory name, a base name, a link name, in the middle of a path, under a parent that still has to be created
+        // (`create_dir_all` then fails AFTER creating the ancestors), multi-byte characters across the limit
+        let n255 = "n".repeat(255);
+        let n256 = "N".repeat(256);
+        let e255 = format!("{}x", "é".repeat(127));            // 254 + 1 bytes
+        let e256 = "é".repeat(128);                              // 256 bytes, 128 characters
+        for files in [
+            vec![reg(&format!("/{}/f", n255), 0o644, b"in a 255-byte directory"), reg(&format!("/d/{}", n255), 0o600, b"255-byte base name"), lnk(&format!("/l/{}", e255), "f")],
+            vec![dir(&format!("/{}", n255), 0o750), reg(&format!("/{}/{}/{}", n255, e255, n255), 0o644, b"three long components")],
+            vec![reg("/a/ok", 0o644, b"ok"), reg(&format!("/{}/f", n256), 0o644, b"in a 256-byte directory")],
+            vec![reg("/a/ok", 0o644, b"ok"), reg(&format!("/b/{}", n256), 0o644, b"256-byte base name")],
+            vec![reg("/a/ok", 0o644, b"ok"), reg(&format!("/p/q/{}/r/f", n256), 0o644, b"ancestors are created first")],
+            vec![reg("/a/ok", 0o644, b"ok"), dir(&format!("/p/q/{}", n256), 0o755)],
+            vec![reg("/a/ok", 0o644, b"ok"), dir(&format!("/p/q/{}/below", e256), 0o755)],
+            vec![reg("/a/ok", 0o644, b"ok"), lnk(&format!("/z/{}", n256), "/decoy")],
+            vec![lnk("/a/l", &format!("../{}", n256)), reg("/a/m", 0o644, b"after a link with a 256-byte target component")],
+        ] {
+            if let Some(p) = build_pkg(&mut src, &files, rpm::CompressionType::None) {
+                ctx.req(&request(&p, None, "/target", &jail));
+            }
+        }
+        for spec in [
+            hs(&["/", &format!("/p/q/{}/", n256)], vec![hf(0, "f", REG | 0o644, "", "x")]),
+            hs(&["/", &format!("/{}/", n255)], vec![hf(1, "f", REG | 0o644, "", "x"), hf(0, &n256, REG | 0o644, "", "y")]),
+            hs(&["/"], vec![hf(0, &n256, LNK | 0o777, "/decoy", ""), hf(0, &format!("{}/file", n256), REG | 0o644, "", "below a link that cannot exist")]),
+            hs(&["/"], vec![hf(0, "l", LNK | 0o777, &n256, ""), hf(0, "l", REG | 0o644, "", "replaces a link to a 256-byte name")]),
+        ] {
+            ctx.req(&request(&hostile_pkg(&spec), None, "/target", &jail));
+        }
+        // names that are not UTF-8: the header strings are decoded lossily (U+FFFD), the file is created under THAT name;
+        // stripped entries are found by index, named entries carry the raw bytes and name no header file
+        for named in [false, true] {
+            let mut s = HSpec {
+                dirnames: vec![b("/"), b"/d\xff/\xfe/".to_vec()],
+                files: vec![
+                    HFile { dir_index: 0, base: b"a\xe9b".to_vec(), mode: REG | 0o644, linkto: vec![], content: b("latin1 name") },
+                    HFile { dir_index: 1, base: b"\xf0\x9fx".to_vec(), mode: REG | 0o600, linkto: vec![], content: b("truncated sequence") },
+                    HFile { dir_index: 0, base: b("l"), mode: LNK | 0o777, linkto: b"t\xc0\x80".to_vec(), content: vec![] },
+                ],
+                ..Default::default()
+            };
+            s.named = named;
+            ctx.req(&request(&hostile_pkg(&s), None, "/target", &jail));
+        }
+        // the process' umask and user: the same builder-made package under other masks (root), and as an unprivileged user who
+        // owns the jail (set-id bits, sticky directories, nested implicit directories)
+        let files = vec![reg("/top", 0o644, b"top-level"), dir("/d", 0o2750), reg("/d/e/f", 0o4711, b"nested"), reg("/imp/li/cit/g", 0o600, b"implicit"),
+                         dir("/sticky", 0o1777), reg("/sticky/s", 0o444, b"ro"), lnk("/d/l", "../top")];
+        if let Some(p) = build_pkg(&mut src, &files, rpm::CompressionType::None) {
+            for um in [0u32, 0o002, 0o022, 0o027, 0o077, 0o133, 0o777] {
+                ctx.req(&format!("{} umask={:o}", request(&p, None, "/target", &jail), um));
+            }
+            for um in [0o022u32, 0o002, 0o077] {
+                ctx.req(&format!("{} umask={:o} uid=65534", request(&p, None, "/target", &jail), um));
+            }
+        }
+        // as an unprivileged user a directory entry without u+wx stops everything below it (set_permissions comes before
+        // the children): the model does not predict (it knows no EACCES), containment and no-panic are judged
+        let files = vec![dir("/ro", 0o555), reg("/ro/f", 0o644, b"below a read-only directory"), reg("/z", 0o644, b"after")];
+        if let Some(p) = build_pkg(&mut src, &files, rpm::CompressionType::None) {
+            // (the unprivileged run of this very package is corpus/C12/unprivileged-readonly-dir.case)
+            ctx.req(&request(&p, None, "/target", &jail));
+        }
+        // builder-made packages with the destination spelled relatively / through ".." / through a link of the caller's
+        let mut jl = jail.clone();
+        jl.push((b("/work/zzroot"), JEnt::Link(b("/"))));
+        let files = vec![reg("/top", 0o644, b"top-level"), dir("/d", 0o2750), reg("/d/e/f", 0o4711, b"nested"), lnk("/d/l", "../top"), lnk("/abs", "/etc/passwd")];
+        if let Some(p) = build_pkg(&mut src, &files, rpm::CompressionType::None) {
+            for via in ["rel", "dotdot", "link"] {
+                ctx.req(&format!("{} via={}", request(&p, None, "/target", if via == "link" { &jl } else { &jail }), via));
+                ctx.req(&format!("{} via={}", request(&p, None, "/work/out", if via == "link" { &jl } else { &jail }), via));
+            }
+        }
     }
     // seeded: benign builder-made packages and random hostile ones
     let n_benign = ctx.q(70u64, 1200) / sn;
@@ -1038,6 +1207,17 @@ pub fn gen(ctx: &mut Ctx) {
                     ctx.req(&request(&pc, Some(&raw.content), "/target", &jail));
                     ctx.req(&request_mem(&files, "gzip", &pc, Some(&raw.content), "/target", &jail));
                 }
+            } else if i % 5 == 2 {
+                // another umask (it shows in the directories `create_dir_all` makes), every other time as an unprivileged user
+                let um = *ctx.rng.pick(&[0u32, 0o002, 0o027, 0o077, 0o007, 0o777, 0o222, 0o026]);
+                let uid = if i % 10 == 2 { " uid=65534" } else { "" };
+                ctx.req(&format!("{} umask={:o}{}", request(&p, None, "/target", &jail), um, uid));
+            } else if i % 3 == 1 {
+                // every third builder-made package: the caller spells the destination in another way
+                let via = ["rel", "dotdot", "link"][(i / 3 % 3) as usize];
+                let mut jl = jail.clone();
+                jl.push((b("/work/zzroot"), JEnt::Link(b("/"))));
+                ctx.req(&format!("{} via={}", request(&p, None, "/target", if via == "link" { &jl } else { &jail }), via));
             } else {
                 ctx.req(&request(&p, None, "/target", &jail));
                 // every third one also as the un-reparsed value
@@ -1051,6 +1231,7 @@ pub fn gen(ctx: &mut Ctx) {
     for i in 0..n_hostile {
         let mut s = if i % 3 == 2 { rand_link_attack(&mut ctx.rng) } else { rand_hostile(&mut ctx.rng) };
         s.named = i % 4 == 1;
-        ctx.req(&request(&hostile_pkg(&s), None, "/target", &jail));
+        let opt = match i % 9 { 4 => " uid=65534", 7 => " umask=0", 8 => " umask=77 uid=65534", _ => "" };
+        ctx.req(&format!("{}{}", request(&hostile_pkg(&s), None, "/target", &jail), opt));
     }
 }
